@@ -150,6 +150,20 @@ CHECKS.update({
         design="8 C19"),
 })
 
+CHECKS.update({
+    "C20": dict(
+        text="Frame argument for history independence, every part decided on real source each run: (A) definite-assignment analysis with "
+             "conditional constant propagation over the installed SLY Parser.parse/restart and Lexer.tokenize: every instance field read is "
+             "written earlier in the same call (instance state havocked at every yield); (B) the repository's error hooks never return "
+             "(contract, every token type); (C) table fields are class-level and written by nothing; (D) callbacks are pure: token actions "
+             "write t.value only, production actions nothing that outlives them, no function of the parsing modules mutates a module-level "
+             "object that anything reads; (E) AliasRewriter.__init__ parses with exactly the supplied lexer/parser (term comparison on all paths).",
+        note="Bounded, labelled: digests of tables, master regex and parse results under 4/32 PYTHONHASHSEED values; 300/5000 random shared-"
+             "instance histories. Import-time table construction by SLY's metaclasses is covered by the bounded part only; threads are outside.",
+        technique="frame/ownership contracts on the real callbacks (pyvc) + def-before-use dataflow on the installed SLY source",
+        design="8 C20"),
+})
+
 NOT_APPLICABLE = {
     "C02": "the rows a Django QuerySet returns are decided by Django's SQL compiler and SQLite, not by any function in /repo; no contract on repo code can express it (DESIGN section 9)",
     "C03": "row semantics are decided by SQLAlchemy's compiler (operator rendering, contains escaping, boolean rendering) and SQLite (DESIGN section 9)",
